@@ -231,7 +231,9 @@ void run_export_case(const json& c, const std::string& workdir, std::vector<json
             log.back()["sysw"] = sys_summary()["writes"];
             log.back()["phase"] = in_recovery ? "recover" : "main";
             if (!ok && op.value("retry", false)) {
-                // the caller tries the rotation once more (same destination; a fresh descriptor for fd outputs)
+                // the caller tries the rotation once more, to another fresh destination "<id>r"
+                nxt.id += "r";
+                nxt.base = workdir + "/" + cid + "_" + nxt.id;
                 logged(log, i, "rotate_retry", [&](json& e) {
                     e["closes"] = cur.id; e["opens"] = nxt.id;
                     if (cur.kind == "fd") { nxt.fd = open_fd(nxt.base); e["ret"] = x->rotate_output(nxt.fd, exp); }
